@@ -14,6 +14,9 @@ use std::time::{Duration, Instant};
 
 pub const VERIF_DIR: &str = "/verif";
 
+/// Where evidence and replay artefacts go (developer override for background runs; defaults to /verif).
+pub fn out_dir() -> String { std::env::var("VERIF_OUT_DIR").unwrap_or_else(|_| VERIF_DIR.to_string()) }
+
 //-------------------------------------------------------------------------------------------------------------------
 // known findings
 
@@ -73,7 +76,7 @@ fn env_u64(name: &str) -> Option<u64> { std::env::var(name).ok().and_then(|s| s.
 fn write_replay(property: &str, f: &FoundViolation, cfg: &Arc<Config>) -> String
 {
     let ex = execute(cfg, f.choices.clone());
-    let dir = format!("{VERIF_DIR}/replays");
+    let dir = format!("{}/replays", out_dir());
     let _ = std::fs::create_dir_all(&dir);
     let sig: String = f.violation.signature.chars().map(|c| if c.is_ascii_alphanumeric() { c } else { '_' }).take(60).collect();
     let path = format!("{dir}/{property}-{sig}.json");
@@ -293,8 +296,8 @@ pub fn run_plan(plan: Plan, tier: Tier) -> Outcome
         "wall_s": wall,
         "violations": unknown.len(),
     });
-    let _ = std::fs::create_dir_all(format!("{VERIF_DIR}/evidence"));
-    let path = format!("{VERIF_DIR}/evidence/{}.json", plan.property);
+    let _ = std::fs::create_dir_all(format!("{}/evidence", out_dir()));
+    let path = format!("{}/evidence/{}.json", out_dir(), plan.property);
     if let Err(e) = std::fs::write(&path, serde_json::to_string_pretty(&evidence).unwrap())
     {
         eprintln!("machinery error: cannot write {path}: {e}");
